@@ -73,6 +73,7 @@ def parse_stdout(text, out):
 
 
 FRAME_RE = re.compile(r'^\s*#(\d+) 0x[0-9a-f]+ in (.+?) (\S+?):(\d+)(?::\d+)?$')
+TSAN_FRAME_RE = re.compile(r'^\s*#(\d+) (.+?) (\S+?):(\d+)(?::\d+)? \(\S+\+0x[0-9a-f]+\)')
 FRAME2_RE = re.compile(r'^\s*#(\d+) 0x[0-9a-f]+ in (.+?) \((\S+)\+0x[0-9a-f]+\)')
 
 
@@ -86,8 +87,8 @@ def _short_func(f):
 def repo_frames(block_lines, limit=3):
     out = []
     for l in block_lines:
-        m = FRAME_RE.match(l)
-        if m and ('repo/' in m.group(3)) and 'harness/' not in m.group(3):
+        m = FRAME_RE.match(l) or TSAN_FRAME_RE.match(l)
+        if m and ('repo/' in m.group(3) or '/include/fix8/' in m.group(3) or '/runtime/' in m.group(3)) and 'harness/' not in m.group(3):
             out.append(_short_func(m.group(2)))
             if len(out) >= limit:
                 break
